@@ -121,9 +121,22 @@ def run_shard(spec, ctx):
             for name, A in fns.items():
                 want = A()
                 for k in range(1, inj.events_in(A, 'line') + 1):
-                    st, res = inj.run(A, B, k, 'line')
+                    import signal
+
+                    def _stuck(signum, frame):
+                        raise TimeoutError('a hierarchy call that takes microseconds did not return within 60 s')
+                    signal.signal(signal.SIGALRM, _stuck)
+                    signal.alarm(60)
+                    try:
+                        st, res = inj.run(A, B, k, 'line')
+                    finally:
+                        signal.alarm(0)
                     ctx.case(('interleave', c1, c2, name, k))
                     ctx.count('hierarchy_interleavings')
+                    if st == 'exc' and isinstance(res, TimeoutError):
+                        ctx.fail('call_did_not_return', {'c': c1, 'other': c2, 'fn': name, 'k': k}, exc=repr(res))
+                        inj.close()
+                        return
                     if st != 'ok' or res != want or inj.bexc is not None or (inj.where is not None and inj.bres != wantB):
                         ctx.fail('wrong_when_interleaved', {'c': c1, 'other': c2, 'fn': name, 'k': k}, got=repr(res)[:200])
                     if A() != want:
@@ -229,12 +242,15 @@ def run_shard(spec, ctx):
             del ch[:2]
             r0 = a5.get_res0_cells()
             keep0 = list(r0)
-            r0.pop()
-            r0.sort(reverse=True)
+            if len(r0) != 12:
+                ctx.fail('res0_cells_depend_on_mutated_earlier_result', case, n=len(r0))
+            else:
+                r0.pop()
+                r0.sort(reverse=True)
             try:
                 if a5.cell_to_children(c, b) != keep:
                     ctx.fail('children_depend_on_mutated_earlier_result', case)
-                if a5.get_res0_cells() != keep0 or a5.cell_to_children(0, 0) != keep0:
+                if len(keep0) == 12 and (a5.get_res0_cells() != keep0 or a5.cell_to_children(0, 0) != keep0):
                     ctx.fail('res0_cells_depend_on_mutated_earlier_result', case)
             except Exception as e:
                 ctx.fail('children_raises', case, exc=repr(e))
